@@ -558,6 +558,10 @@ def run(ctx) -> None:  # noqa: F811
 
     def axes_kw_is_param(call: ast.Call) -> bool:
         v = next((k.value for k in call.keywords if k.arg == "axes"), None)
+        if v is None and call_name(call) == f.name:  # the recursive call may pass axes positionally
+            from ..model import bind_args
+
+            v = bind_args(call, f).get("axes")
         return isinstance(v, ast.Name) and v.id == "axes"
 
     n = 0
